@@ -382,6 +382,144 @@ def _matrix_codec(tree: ast.Module) -> dict:
     return {'pack': slots, 'unpack': cells, 'line': w.lineno}
 
 
+# ------------------------------------------------------------------------------------------------ value strings (KV2)
+VEC_TEXT = {'vec2': 'TVec2', 'vec3': 'TVec3', 'vec4': 'TVec4', 'angle': 'TAngle', 'quaternion': 'TQuat'}
+
+
+def _alias(tree: ast.Module, name: str) -> str:
+    """`name = <dotted name>` at module level -> the dotted name."""
+    for n in tree.body:
+        if isinstance(n, ast.Assign) and len(n.targets) == 1 and isinstance(n.targets[0], ast.Name) and n.targets[0].id == name:
+            if isinstance(n.value, (ast.Name, ast.Attribute)):
+                return ast.unparse(n.value)
+            _fail(f'{name}: not an alias of a function', n)
+    _fail(f'{name} not found')
+
+
+def _joined_parts(node: ast.AST, var: str, where, wrap: str | None) -> tuple[list[str], list[str]]:
+    """An f-string `{W(var.c1)}<sep>{W(var.c2)}...` -> (component names, separators)."""
+    if not isinstance(node, ast.JoinedStr):
+        _fail(f'expected an f-string, found `{ast.unparse(node)}`', where)
+    comps, seps = [], []
+    expect_val = True
+    for v in node.values:
+        if isinstance(v, ast.FormattedValue):
+            if not expect_val or v.conversion != -1 or v.format_spec is not None:
+                _fail(f'unrecognised f-string `{ast.unparse(node)}`', where)
+            inner = v.value
+            if wrap is not None:
+                if not (isinstance(inner, ast.Call) and ast.unparse(inner.func) == wrap and len(inner.args) == 1 and not inner.keywords):
+                    _fail(f'component not formatted with {wrap}: `{ast.unparse(inner)}`', where)
+                inner = inner.args[0]
+            if not (isinstance(inner, ast.Attribute) and ast.unparse(inner.value) == var):
+                _fail(f'unrecognised component `{ast.unparse(inner)}`', where)
+            comps.append(inner.attr)
+            expect_val = False
+        elif isinstance(v, ast.Constant) and isinstance(v.value, str):
+            if expect_val:
+                _fail(f'unrecognised f-string `{ast.unparse(node)}`', where)
+            seps.append(v.value)
+            expect_val = True
+        else:
+            _fail(f'unrecognised f-string `{ast.unparse(node)}`', where)
+    if expect_val:
+        _fail(f'f-string ends with a separator `{ast.unparse(node)}`', where)
+    return comps, seps
+
+
+def _value_text(tree: ast.Module) -> dict:
+    out: dict = {}
+    # _fmt_float
+    f = _top_func(tree, '_fmt_float')
+    arg = f.args.args[0].arg if len(f.args.args) == 1 else _fail('_fmt_float: one parameter expected', f)
+    body = _body(f)
+    m = None
+    if len(body) == 3 and ast.unparse(body[1]) == "if res.endswith('.'):\n    return res[:-1]" and ast.unparse(body[2]) == 'return res':
+        m = re.fullmatch(r"res = format\((.+), '\.(\d+)f'\)\.rstrip\('0'\)", ast.unparse(body[0]))
+        strips = True
+    elif len(body) == 1:
+        m = re.fullmatch(r"return format\((.+), '\.(\d+)f'\)", ast.unparse(body[0]))
+        strips = False
+    if m is None:
+        _fail(f'_fmt_float: unrecognised body {[ast.unparse(x) for x in body]}', f)
+    if m.group(1) == arg:
+        adds_zero = False
+    elif m.group(1).replace(' ', '') in (f'{arg}+0.0', f'0.0+{arg}'):
+        adds_zero = True
+    else:
+        _fail(f'_fmt_float: unrecognised operand `{m.group(1)}`', f)
+    out['float_fmt'] = {'adds_zero': adds_zero, 'places': int(m.group(2)), 'strips': strips, 'line': f.lineno}
+    # scalar aliases
+    out['int_funcs'] = (_alias(tree, '_conv_integer_to_string'), _alias(tree, '_conv_string_to_integer'))
+    out['float_funcs'] = (_alias(tree, '_conv_float_to_string'), _alias(tree, '_conv_string_to_float'))
+    # vectors
+    written, read = [], []
+    for key, coq in VEC_TEXT.items():
+        w = _top_func(tree, f'_conv_{key}_to_string')
+        warg = w.args.args[0].arg if len(w.args.args) == 1 else _fail(f'{w.name}: one parameter expected', w)
+        wb = _body(w)
+        if not (len(wb) == 1 and isinstance(wb[0], ast.Return)):
+            _fail(f'{w.name}: a single return expected', w)
+        comps, seps = _joined_parts(wb[0].value, warg, w, '_fmt_float')
+        if any(s_ != ' ' for s_ in seps):
+            _fail(f'{w.name}: components not separated by single spaces', w)
+        written.append((coq, comps))
+        r = _top_func(tree, f'_conv_string_to_{key}')
+        rarg = r.args.args[0].arg if len(r.args.args) == 1 else _fail(f'{r.name}: one parameter expected', r)
+        rb = _body(r)
+        mm = re.fullmatch(r'return (\w+(?:\._make)?)\(parse_vector\(' + rarg + r', (\d+)\)\)', ast.unparse(rb[0])) if len(rb) == 1 else None
+        if mm is None:
+            _fail(f'{r.name}: `return Cls(parse_vector(text, N))` expected', r)
+        read.append((coq, int(mm.group(2))))
+    out['vec_written'], out['vec_read'] = written, read
+    pv = [ast.unparse(x) for x in _body(_top_func(tree, 'parse_vector'))]
+    if pv != ['parts = text.split()', "if len(parts) != count:\n    raise ValueError(f'{text!r} is not a {count}-dimensional vector!')",
+              'return list(map(float, parts))']:
+        _fail(f'parse_vector: unrecognised body {pv}')
+    # colour
+    w = _top_func(tree, '_conv_color_to_string')
+    warg = w.args.args[0].arg
+    wb = _body(w)
+    if not (len(wb) == 1 and isinstance(wb[0], ast.Return)):
+        _fail('_conv_color_to_string: a single return expected', w)
+    comps, seps = _joined_parts(wb[0].value, warg, w, None)
+    if any(s_ != ' ' for s_ in seps):
+        _fail('_conv_color_to_string: components not separated by single spaces', w)
+    out['color_written'] = comps
+    r = _top_func(tree, '_conv_string_to_color')
+    rarg = r.args.args[0].arg
+    rb = _body(r)
+    if not (len(rb) == 2 and ast.unparse(rb[0]) == f'parts = {rarg}.split()' and isinstance(rb[1], ast.If)):
+        _fail('_conv_string_to_color: unrecognised frame', r)
+    reads = []
+    node = rb[1]
+    while True:
+        mm = re.fullmatch(r'len\(parts\) == (\d+)', ast.unparse(node.test))
+        if mm is None or len(node.body) != 1 or not isinstance(node.body[0], ast.Return):
+            _fail(f'_conv_string_to_color: unrecognised branch `{ast.unparse(node.test)}`', node)
+        call = node.body[0].value
+        if not (isinstance(call, ast.Call) and ast.unparse(call.func) == 'Color' and not call.keywords):
+            _fail('_conv_string_to_color: `return Color(...)` expected', node)
+        args = []
+        for a in call.args:
+            ma = re.fullmatch(r'int\(parts\[(\d+)\]\)', ast.unparse(a))
+            if ma:
+                args.append(f'CPart {ma.group(1)}')
+            elif isinstance(a, ast.Constant) and isinstance(a.value, int) and not isinstance(a.value, bool):
+                args.append(f'CConst ({a.value})%Z')
+            else:
+                _fail(f'_conv_string_to_color: unrecognised argument `{ast.unparse(a)}`', node)
+        reads.append((int(mm.group(1)), args))
+        if len(node.orelse) == 1 and isinstance(node.orelse[0], ast.If):
+            node = node.orelse[0]
+            continue
+        if not (len(node.orelse) == 1 and isinstance(node.orelse[0], ast.Raise)):
+            _fail('_conv_string_to_color: the last branch must raise', node)
+        break
+    out['color_read'] = reads
+    return out
+
+
 # ------------------------------------------------------------------------------------------------ KV2
 KV2_FIELDS = {'self.type': 'type', 'self.name': 'name', 'attr.name': 'attrname', 'str_value': 'array_value',
               'attr.val_str': 'scalar_value'}
@@ -696,6 +834,7 @@ def translate() -> tuple[str, dict]:
         sizes.append((coq, structs[key][0]))
     pb = _parse_bin(_func(tree, 'Element', 'parse_bin'))
     eb = _export_binary(_func(tree, 'Element', 'export_binary'))
+    vtext = _value_text(tree)
     kv2 = _export_kv2(_func(tree, 'Element', '_export_kv2'))
     kv2_refs = _kv2_ref_tables(_func(tree, 'Element', '_export_kv2'))
     kv2_tok_kw = _kv2_tokenizer_kwargs(_func(tree, 'Element', 'parse_kv2'))
@@ -729,7 +868,7 @@ def translate() -> tuple[str, dict]:
                 enc_read={k: v[0] for k, v in pb['enc_read'].items()}, enc_write={k: v[0] for k, v in eb['enc_write'].items()},
                 enc_read_lines={k: v[1] for k, v in pb['enc_read'].items()},
                 formats=fmt_rows, time_codec=tcodec, matrix_codec=mcodec, ctor=ctor_rows,
-                kv2_fields=kv2, kv2_ref_tables=kv2_refs, kv2_tokenizer_kwargs=kv2_tok_kw, kv2_keyword_types_at_root=kv2_kw_roots, kv2_keyword_roots_line=kv2_kw_roots_line, kv2_stub_keeps_uuid=kv2_stub, kv2_stub_line=kv2_stub_line, kv1=kv1,
+                value_text=vtext, kv2_fields=kv2, kv2_ref_tables=kv2_refs, kv2_tokenizer_kwargs=kv2_tok_kw, kv2_keyword_types_at_root=kv2_kw_roots, kv2_keyword_roots_line=kv2_kw_roots_line, kv2_stub_keeps_uuid=kv2_stub, kv2_stub_line=kv2_stub_line, kv1=kv1,
                 digests={f: ast_digest(_func(tree, 'Element', f)) for f in
                          ('parse_bin', 'export_binary', 'export_kv2', '_export_kv2', 'parse_kv2', '_parse_kv2_element')})
 
@@ -738,7 +877,7 @@ def translate() -> tuple[str, dict]:
     b = lambda x: 'true' if x else 'false'
     lines = [
         '(* GENERATED by translate/c14_dmx.py from /repo/src/srctools/dmx.py. Do not edit. *)',
-        'From Coq Require Import NArith ZArith List String.', 'From SV Require Import Fmt.DmxCodes Fmt.DmxKv1 Fmt.DmxScalar Fmt.DmxKv2.', 'Import ListNotations.',
+        'From Coq Require Import NArith ZArith List String.', 'From SV Require Import Num.Dec6 Fmt.DmxCodes Fmt.DmxKv1 Fmt.DmxScalar Fmt.DmxKv2 Fmt.DmxValText.', 'Import ListNotations.',
         'Open Scope N_scope.',
         'Definition gen_cfg : dmxcfg := {|',
         '  code_table := [' + '; '.join(f'({c}, {i})' for c, i, _ in table) + '];',
@@ -760,6 +899,17 @@ def translate() -> tuple[str, dict]:
         '  sc_mat_unpack := [' + '; '.join(f'({r}, {c}, {i})' for r, c, i in mcodec['unpack']) + '];',
         '|}.',
         'Definition gen_ctor_classes : list (vtype * string) := [' + '; '.join(f'({c}, "{k}"%string)' for c, k in ctor_rows) + '].',
+        '(* value strings of KeyValues2: _fmt_float, the vector / colour texts, the scalar aliases *)',
+        f'Definition gen_float_fmt : fmt_cfg := {{| adds_zero := {b(vtext["float_fmt"]["adds_zero"])}; places := {vtext["float_fmt"]["places"]}; '
+        f'strips := {b(vtext["float_fmt"]["strips"])}; neg_zero_fix := false |}}.',
+        'Definition gen_vec_text_written : list (vtype * list string) := [' +
+        '; '.join(f'({c}, [' + '; '.join(f'"{x}"%string' for x in comps) + '])' for c, comps in vtext['vec_written']) + '].',
+        'Definition gen_vec_text_read : list (vtype * N) := [' + '; '.join(f'({c}, {n})' for c, n in vtext['vec_read']) + '].',
+        'Definition gen_color_text_written : list string := [' + '; '.join(f'"{x}"%string' for x in vtext['color_written']) + '].',
+        'Definition gen_color_text_read : list (N * list cread) := [' +
+        '; '.join(f'({n}, [' + '; '.join(args) + '])' for n, args in vtext['color_read']) + '].',
+        f'Definition gen_int_text_funcs : string * string := ("{vtext["int_funcs"][0]}"%string, "{vtext["int_funcs"][1]}"%string).',
+        f'Definition gen_float_text_funcs : string * string := ("{vtext["float_funcs"][0]}"%string, "{vtext["float_funcs"][1]}"%string).',
         '(* KeyValues2 writer: is each interpolated string field escaped, and encoded with the file codec? *)',
     ]
     for k in sorted(kv2):
